@@ -523,3 +523,50 @@ def r_lookbehind(cx, tags=("dev-none-stable", "dev-msep-stable")):
           "needs_macro_sep treats 'no previous token' exactly like ';' for every token type" if ok2 else
           "needs_macro_sep distinguishes 'no previous token' from ';' (or could not be evaluated)")
     cx.count(rule, "sites", 1)
+
+
+# ---------------------------------------------------------------------------
+# R-CHARCLASS (C11, C12): the name character predicates are the language's classes on ASCII
+
+def r_charclass(cx, tag="dev-none-stable"):
+    """Constant-fold every predicate listed in tables/char_classes.json over the ASCII characters with LEA's evaluator
+    (no assumption on how the predicate is written: `matches!`, ranges, library calls) and compare with the set the
+    language defines.  The definition site of a macro and its call sites use different predicates of this family; if one
+    of them drifts, a well-formed name is accepted in one place and rejected in the other."""
+    import json as _json
+    import os
+    from . import lea
+    rule = "R-CHARCLASS"
+    cx.rules_run.append(rule)
+    fx = cx.facts(tag)
+    with open(os.path.join(os.path.dirname(os.path.dirname(os.path.abspath(__file__))), "tables", "char_classes.json")) as f:
+        tab = _json.load(f)["predicates"]
+    I = lea.Interp(fx, budget=10 ** 6)
+    I.probe_enabled = False
+    n = 0
+    for fn, want in sorted(tab.items()):
+        if fn not in fx.bodies:
+            cx.ob(rule, "%s|present" % fn, False, "", "predicate %s not found in the crate (anchor missing)" % fn)
+            continue
+        got, undecided = set(), []
+        for o in range(1, 128):
+            c = chr(o)
+            try:
+                outs = I.run_fn(fn, lea.St(), [lea.Const("char", c)])
+            except (lea.Unanalysed, lea.Budget):
+                outs = []
+            vals = {getattr(x.val, "v", None) for x in outs}
+            if len(vals) != 1 or not vals <= {True, False}:
+                undecided.append(c)
+            elif True in vals:
+                got.add(c)
+            n += 1
+        missing = sorted(set(want) - got - set(undecided))
+        extra = sorted(got - set(want))
+        ok = not missing and not extra and not undecided
+        cx.ob(rule, "%s|ascii-class" % fn, ok, F.file_line(fx.bodies[fn]["span"]),
+              "%s accepts exactly the %d ASCII characters of the language's class" % (fn, len(want)) if ok else
+              "%s differs from the language's class on ASCII: rejects %s, accepts %s%s - another site of the same family "
+              "still uses the full class, so the same name is valid in one construct and invalid in the other"
+              % (fn, missing[:6], extra[:6], (", undecided %s" % undecided[:4]) if undecided else ""))
+    cx.count(rule, "evaluations", n)
